@@ -60,9 +60,16 @@ CONSTANTS
     MaxCalls,   \* 0: unbounded (exhaustive runs); else calls per behaviour
     Proc,       \* exit status / CLOSE / wait() are part of the alphabet
     Redir,      \* Redirect is part of the alphabet
+    MaxRedir,   \* redirections per stream (2: the target is replaced once)
+    Canon,      \* TRUE: only the streams a b n a b n.. / n a n a.. (content is irrelevant,
+                \* order is not: used by the late-redirection tables)
     Policy,     \* "any" | canonical schedules for the case tables: "rfl" the same call is
                 \* repeated until EOF while the chunks arrive one by one; "dfl" all chunks
-                \* and EOF arrive first, then the same call is repeated until EOF
+                \* and EOF arrive first, then the same call is repeated until EOF;
+                \* "red" late redirection: packets arrive one by one, at most MaxCalls
+                \* read(n) calls, every stream is redirected at some idle point
+                \* (buffered chunks, paused or not, chunks / EOF / CLOSE parked in
+                \* the channel all arise), possibly twice
     PrintAt,    \* 0: never; else print the history when it has this length or is terminal
     SearchBug,  \* sensitivity: separator searched only in the newest chunk
     CloseBug,   \* sensitivity: CLOSE tears the channel down while data is still held
@@ -203,7 +210,9 @@ SepChoice == {NlSep} \cup {<<"lit", t>> : t \in UNION {Pick(sh) : sh \in SepShap
 
 -----------------------------------------------------------------------------
 NoCall == [k |-> "none", n |-> 0, n0 |-> 0, sep |-> NoSep, acc |-> <<>>, cur |-> 0, brk |-> FALSE]
-NoTgt  == [on |-> FALSE, data |-> <<>>, eof |-> FALSE, late |-> FALSE]
+\* redirect target(s) of a stream: data = everything written to the targets,
+\* gens = length of data at the moments the target was replaced
+NoTgt  == [on |-> FALSE, data |-> <<>>, eof |-> FALSE, late |-> FALSE, gens |-> <<>>]
 
 InitC(W) ==
     [w    |-> W,                         \* channel window (_init_recv_window)
@@ -479,17 +488,28 @@ RunReaders(cc) == IF cc.wq = <<>> THEN cc
                   ELSE RunReaders(RunOne([cc EXCEPT !.wq = Tail(@)], Head(cc.wq)))
 
 \* process.py _create_writer + feed_recv_buf
+\* (set_writer: an earlier writer is closed and replaced; the new one is fed
+\* what is buffered - nothing, if there was a writer - and EOF if it was seen)
 DoRedirect(cc, d) ==
+    IF cc.tgt[d].on
+    THEN Resume([cc EXCEPT !.tgt[d].gens = Append(@, Len(cc.tgt[d].data)),
+                           !.tgt[d].eof = cc.eof])
+    ELSE
     LET data == DataOf(Flat(cc.buf[d]))
-        c1 == [cc EXCEPT !.tgt[d] = [on |-> TRUE, data |-> data, eof |-> cc.eof, late |-> FALSE],
+        c1 == [cc EXCEPT !.tgt[d] = [on |-> TRUE, data |-> data, eof |-> cc.eof,
+                                     late |-> FALSE, gens |-> <<>>],
                          !.buf[d] = <<>>,
                          !.len = @ - Len(data)]
     IN Resume(c1)
 
 -----------------------------------------------------------------------------
-PrimStreams == {p \in SeqsUpTo(Units \cup Marks, MaxLen) :
-                  Cardinality({i \in DOMAIN p : p[i] \in AllMarks}) <= MaxMarks}
-ErrStreams  == SeqsUpTo({"a", "n"}, MaxErr)
+CanonOut == <<"a", "b", "n", "a", "b", "n", "a", "b">>
+CanonErr == <<"n", "a", "n", "a", "n", "a">>
+PrimStreams == IF Canon THEN {SubSeq(CanonOut, 1, k) : k \in 0..MaxLen}
+               ELSE {p \in SeqsUpTo(Units \cup Marks, MaxLen) :
+                       Cardinality({i \in DOMAIN p : p[i] \in AllMarks}) <= MaxMarks}
+ErrStreams  == IF Canon THEN {SubSeq(CanonErr, 1, k) : k \in 0..MaxErr}
+               ELSE SeqsUpTo({"a", "n"}, MaxErr)
 Streams ==
     {s \in {[d \in DTs |-> IF d = Prim THEN p ELSE e] : p \in PrimStreams, e \in ErrStreams} :
         \A d \in DTs \ {Prim} : Len(s[Prim]) + Len(s[d]) <= MaxLen}
@@ -540,6 +560,7 @@ EmitEOF ==
 
 EmitExit(x) ==
     /\ Proc /\ EmitOK /\ ~exitSent
+    /\ Policy = "red" => x = "status" /\ AllSent
     /\ wire' = Append(wire, [t |-> "exit", dt |-> Prim, u |-> <<x>>])
     /\ exitSent' = TRUE
     /\ hist' = Hist(<<"emit", "exit", Prim, <<x>> >>)
@@ -547,6 +568,7 @@ EmitExit(x) ==
 
 EmitClose ==
     /\ Proc /\ EmitOK /\ AllSent
+    /\ Policy = "red" => exitSent
     /\ wire' = Append(wire, [t |-> "close", dt |-> Prim, u |-> <<>>])
     /\ closeSent' = TRUE
     /\ hist' = Hist(<<"emit", "close", Prim, <<>> >>)
@@ -558,7 +580,7 @@ Settle(c2) == /\ c' = [c2 EXCEPT !.adj = 0, !.fin = <<>>]
 
 Run ==
     /\ wire # <<>>
-    /\ Policy \in {"rfl", "dfl"} => Len(wire) = 1
+    /\ Policy \in {"rfl", "dfl", "red"} => Len(wire) = 1
     /\ LET c2 == RunReaders(ProcessAll(c, wire)) IN
          /\ Settle(c2)
          /\ hist' = Hist(<<"run", c2.fin>>)
@@ -584,6 +606,7 @@ StartCall(d, cl) ==
     /\ CallOK
     /\ Policy \in {"rfl", "dfl"} => /\ d = Prim /\ SameAsFirst(cl) /\ ~AtEOF(d)
                                    /\ (cl.k \in {"read", "exact"} => cl.n0 # 0)
+    /\ Policy = "red" => cl.k = "read" /\ cl.n0 > 0
     /\ c.call[d].k = "none" /\ ~c.tgt[d].on
     /\ Proc => c.call["w"].k = "none"
     /\ LET c2 == RunReaders([c EXCEPT !.call[d] = cl, !.wq = <<d>>]) IN
@@ -593,7 +616,7 @@ StartCall(d, cl) ==
     /\ UNCHANGED <<S, sent, eofSent, exitSent, closeSent, wire>>
 
 StartWait ==
-    /\ Proc /\ CallOK /\ NoActiveCall
+    /\ Proc /\ CallOK /\ NoActiveCall /\ Policy # "red"
     /\ LET c2 == RunReaders([c EXCEPT !.call["w"] = [NoCall EXCEPT !.k = "wait"],
                                       !.wq = <<"w">>]) IN
          /\ Settle(c2)
@@ -602,7 +625,7 @@ StartWait ==
     /\ UNCHANGED <<S, sent, eofSent, exitSent, closeSent, wire>>
 
 StartCollect ==
-    /\ Proc /\ CallOK /\ NoActiveCall
+    /\ Proc /\ CallOK /\ NoActiveCall /\ Policy # "red"
     /\ \A d \in DTs : ~c.tgt[d].on
     /\ LET c2 == RunReaders(DoCollect(c)) IN
          /\ Settle(c2)
@@ -611,7 +634,8 @@ StartCollect ==
     /\ UNCHANGED <<S, sent, eofSent, exitSent, closeSent, wire>>
 
 Redirect(d) ==
-    /\ Redir /\ Idle /\ NoActiveCall /\ ~c.tgt[d].on
+    /\ Redir /\ Idle /\ NoActiveCall
+    /\ ~c.tgt[d].on \/ Len(c.tgt[d].gens) + 1 < MaxRedir
     /\ LET c2 == RunReaders(DoRedirect(c, d)) IN
          /\ Settle(c2)
          /\ hist' = Hist(<<"redirect", d, c2.fin>>)
@@ -619,6 +643,8 @@ Redirect(d) ==
 
 Terminal ==
     CASE Policy \in {"rfl", "dfl"} -> eofSent /\ Idle /\ NoActiveCall /\ AtEOF(Prim) /\ ncalls >= 1
+      [] Policy = "red" -> /\ eofSent /\ Idle /\ (Proc => closeSent)
+                           /\ \E d \in DTs : c.tgt[d].on
       [] OTHER -> FALSE
 Stop == PrintAt > 0 /\ (Terminal \/ Len(hist) >= PrintAt)
 
@@ -697,5 +723,7 @@ NeverWaitDone == ~(Proc /\ c.ccl = "done" /\ c.exit # "none" /\ c.pos[Prim] > 0)
 -----------------------------------------------------------------------------
 (* Case output: one line per behaviour, tuples only (JSON after << >> -> [ ]) *)
 PrintCase ==
-    Stop => PrintT(ToString(<<"CASE", c.w, [i \in 1..Len(DTOrder) |-> S[DTOrder[i]]], hist>>))
+    Stop => PrintT(ToString(<<"CASE", c.w, [i \in 1..Len(DTOrder) |-> S[DTOrder[i]]], hist,
+                              [i \in 1..Len(DTOrder) |->
+                                 <<c.tgt[DTOrder[i]].gens, c.tgt[DTOrder[i]].data>>]>>))
 =============================================================================
